@@ -8,7 +8,7 @@ independent specification `Octave.Spec.Leaves` (leaves of a document; tagged tre
 
 Every theorem holds for documents of ANY depth and width (structural induction over the node tree).
 -/
-import Octave.Lemmas.MarkdownDoc
+import Octave.Lemmas.FilterGuards
 namespace Octave.C14
 open Octave
 
@@ -35,10 +35,10 @@ theorem gen_filterClasses : Gen.filterClasses.eraseDups = ["Assignment", "Block"
 /-- node / value classes every converter dispatches on (both copies) — what `nodeEntry`, `convertValue`,
 `mdNode`, `mdValue`, `mdValueCli` transcribe -/
 theorem gen_converterDispatch : Gen.converterDispatch =
-    [("mcp._ast_to_dict", ["Assignment", "Block"]), ("mcp._convert_value", ["LiteralZoneValue", "ListValue", "InlineMap"]),
+    [("mcp._ast_to_dict", ["Assignment", "Block"]), ("mcp._convert_value", ["LiteralZoneValue", "HolographicValue", "ListValue", "InlineMap"]),
      ("mcp._convert_block", ["Assignment", "Block"]), ("mcp._format_markdown_value", ["LiteralZoneValue", "ListValue", "InlineMap"]),
      ("mcp._ast_to_markdown", ["Assignment", "Block"]), ("mcp._block_to_markdown", ["Assignment", "Block"]),
-     ("cli._ast_to_dict", ["Assignment", "Block"]), ("cli._ast_to_dict.convert_value", ["ListValue", "InlineMap"]),
+     ("cli._ast_to_dict", ["Assignment", "Block"]), ("cli._ast_to_dict.convert_value", ["HolographicValue", "ListValue", "InlineMap"]),
      ("cli._ast_to_dict.convert_block", ["Assignment", "Block"]), ("cli._ast_to_markdown", ["Assignment", "Block"]),
      ("cli._block_to_markdown", ["Assignment", "Block"])] := by
   decide
@@ -167,7 +167,7 @@ theorem C14_missing_leaf_means_lossy_partial (zones : Bool) (mode : Str) (d : Do
     rw [C14_project_honest mode d hl]
     exact docTree_leaves_eq zones d hs hd
 
-/-- and `json.dumps` does not raise (MCP copy) when no value is holographic or a plain dict -/
+/-- and `json.dumps` does not raise (MCP copy) when no value is a plain dict (nested META block, F52) -/
 theorem C14_jsonable_partial (d : Doc) (h : docValuesAll Value.mcpOk d = true) : jsonable (astToDict true d) = true :=
   astToDict_jsonable d h
 
@@ -188,6 +188,25 @@ theorem C14_formats_agree_partial (zones : Bool) (fmt : Value → Str) (d' : Doc
   refine ⟨h1, h2, hrt d', ?_⟩
   rw [h1, h2]
   simp [convLeaf, mdLeaf, List.map_map, Function.comp_def]
+
+/-- the guards hold for every projection of a document that meets them (any mode string) -/
+theorem C14_guards_preserved (mode : Str) (d : Doc)
+    (hs : noSections d = true) (hd : noDupSiblings d = true) (ho : mdOrdered d = true) :
+    noSections (project mode d).doc = true ∧ noDupSiblings (project mode d).doc = true ∧ mdOrdered (project mode d).doc = true := by
+  simp only [project, applyRow]
+  split
+  · exact ⟨hs, hd, ho⟩
+  · exact ⟨filterFields_noSections _ d hs, filterFields_noDup _ d hd, filterFields_mdOrdered _ d ho⟩
+
+/-- … hence, with the guards on the SOURCE only: in every mode (lossy ones included) the JSON/YAML tree and the markdown
+scan of the projection contain exactly the projection's leaves, which are a sub-multiset of the source's. -/
+theorem C14_formats_agree_all_modes_partial (zones : Bool) (fmt : Value → Str) (mode : Str) (d : Doc)
+    (hs : noSections d = true) (hd : noDupSiblings d = true) (ho : mdOrdered d = true) :
+    (docTree zones (project mode d).doc).leaves = (Doc.leaves (project mode d).doc).map (convLeaf zones)
+      ∧ mdLeaves (mdLines fmt (project mode d).doc) = (Doc.leaves (project mode d).doc).map (mdLeaf fmt [])
+      ∧ (Doc.leaves (project mode d).doc).Sublist (Doc.leaves d) := by
+  obtain ⟨h1, h2, h3⟩ := C14_guards_preserved mode d hs hd ho
+  exact ⟨docTree_leaves_eq zones _ h1 h2, mdLeaves_eq fmt _ h1 h3, C14_no_invention_project mode d⟩
 
 /-! ## The CLI copy of the converters -/
 
@@ -230,10 +249,13 @@ theorem C14_KF_duplicates :
 
 /-- F33 witness `K::["x"∧REQ]` -/
 def wF33 : Doc := { name := s "DOC", sections := [.assign {} (s "K") (.holo (s "[\"x\"∧REQ]"))] }
-/-- F33: `json.dumps` raises on the converted document (both copies) -/
-theorem C14_KF_holographic :
-    jsonable (astToDict true wF33) = false ∧ jsonable (astToDict false wF33) = false
-    ∧ docValuesAll Value.mcpOk wF33 = false := by
+/-- F33, what is left of it after fix 45b8e9f (json/yaml now get the pattern text, `jsonable` holds): the markdown converters
+(both copies) still print the Python `repr` of the AST object — the text found at `K` is not the value's text. -/
+theorem C14_KF_holographic_markdown :
+    jsonable (astToDict true wF33) = true ∧ jsonable (astToDict false wF33) = true
+    ∧ mdLeaves (mdLines mdValue wF33) = [([s "K"], [opaqueMark])]
+    ∧ mdLeaves (mdLines mdValueCli wF33) = [([s "K"], [opaqueMark])]
+    ∧ noHolo wF33 = false := by
   decide
 
 /-- F50 witness `BLK: ⟨P::1, IN: ⟨Q::2⟩, R::3⟩` -/
